@@ -109,6 +109,9 @@ type PathResult struct {
 	Terms        int
 	Pending      [][]Dec
 	CacheHits    int
+	CrossN       int
+	Known        map[string]*Violation
+	SampleInputs map[string]interface{}
 	Funcs        []*ssa.Function
 	Inputs       int
 	Trace        []string
@@ -127,6 +130,8 @@ type ExploreOpts struct {
 	Fixed         map[string]Value // concrete values for inputs (replay inside the interpreter)
 	Verbose       bool
 	Params        map[string]int64 // harness parameters readable through vxGet
+	CrossSolver   string
+	SampleModels  int
 }
 
 type Summary struct {
@@ -146,6 +151,10 @@ type Summary struct {
 	MaxDepth     int
 	Steps        int64
 	CacheHits    int
+	CrossN       int
+	CrossStats   smt.Stats
+	Known        map[string]*Violation
+	SampleInputs []map[string]interface{}
 	Stats        smt.Stats
 	Funcs        map[*ssa.Function]bool
 	SamplePaths  []map[string]interface{}
@@ -170,7 +179,7 @@ func (p *Program) Explore(fn *ssa.Function, opts ExploreOpts) *Summary {
 		opts.TimeoutMS = 60000
 	}
 	sum := &Summary{Harness: fn.Name(), Reached: map[string]int{}, Asserts: map[string]int{}, AssertsConc: map[string]int{},
-		Funcs: map[*ssa.Function]bool{}, DistinctSig: map[string]bool{}}
+		Funcs: map[*ssa.Function]bool{}, DistinctSig: map[string]bool{}, Known: map[string]*Violation{}}
 	var mu sync.Mutex
 	cond := sync.NewCond(&mu)
 	work := [][]Dec{{}}
@@ -233,18 +242,30 @@ func (p *Program) Explore(fn *ssa.Function, opts ExploreOpts) *Summary {
 					return
 				}
 			}
+			mu.Lock()
+			wantSample := len(sum.SampleInputs) < opts.SampleModels
+			mu.Unlock()
 			res := p.RunPath(fn, prefix, solver, opts, func(alt []Dec) {
 				mu.Lock()
 				work = append(work, alt)
 				cond.Broadcast()
 				mu.Unlock()
-			})
+			}, &sum.CrossStats, wantSample)
 
 			mu.Lock()
 			active--
 			sum.Paths++
 			sum.Steps += res.Steps
 			sum.CacheHits += res.CacheHits
+			sum.CrossN += res.CrossN
+			for k, v := range res.Known {
+				if sum.Known[k] == nil {
+					sum.Known[k] = v
+				}
+			}
+			if res.SampleInputs != nil && len(sum.SampleInputs) < opts.SampleModels {
+				sum.SampleInputs = append(sum.SampleInputs, res.SampleInputs)
+			}
 			sum.Decisions += int64(len(res.Decisions))
 			if len(res.Decisions) > sum.MaxDepth {
 				sum.MaxDepth = len(res.Decisions)
@@ -307,7 +328,7 @@ func (p *Program) Explore(fn *ssa.Function, opts ExploreOpts) *Summary {
 }
 
 // RunPath executes one path of the harness following the decision prefix.
-func (p *Program) RunPath(fn *ssa.Function, prefix []Dec, solver *smt.Solver, opts ExploreOpts, onPending func([]Dec)) (res *PathResult) {
+func (p *Program) RunPath(fn *ssa.Function, prefix []Dec, solver *smt.Solver, opts ExploreOpts, onPending func([]Dec), crossStats *smt.Stats, wantSample bool) (res *PathResult) {
 	t0 := time.Now()
 	m := &Machine{
 		Prog: p.Prog, C: sym.NewCtx(), S: solver,
@@ -317,6 +338,7 @@ func (p *Program) RunPath(fn *ssa.Function, prefix []Dec, solver *smt.Solver, op
 		globals: map[*ssa.Global]*Value{}, mutexW: map[*Value][]*G{}, wgCount: map[*Value]int64{}, wgW: map[*Value][]*G{},
 		mapOrderSym: map[string]bool{}, Env: NewWorld(), Funcs: map[*ssa.Function]bool{},
 		userData: map[string]Value{}, extTypeTab: map[string]types.Type{}, Fixed: opts.Fixed, onPending: onPending,
+		knownW: map[string]*Violation{}, CrossKind: opts.CrossSolver, CrossStats: crossStats,
 	}
 	res = &PathResult{Prefix: prefix}
 	for k, v := range opts.Params {
@@ -352,6 +374,13 @@ func (p *Program) RunPath(fn *ssa.Function, prefix []Dec, solver *smt.Solver, op
 		}
 		m.callFn(fn, nil, nil, nil)
 	}()
+	if res.Status == "done" && wantSample && len(m.decisions) > 0 && !solver.Dead() {
+		if mod, r := m.modelNow(nil); r == smt.Sat {
+			res.SampleInputs = m.inputsFromModel(mod)
+		}
+	}
+	res.Known = m.knownW
+	res.CrossN = m.CrossN
 	m.cleanup()
 	if !solver.Dead() {
 		for solver.Depth() > 1 {
